@@ -175,6 +175,21 @@ def couplers(ctx):
         got, want = SB.agree(f.node, src)
         ctx.stats['terms_compared'] += 1
         ctx.check(got == want, 'coupler.' + name, src.split('return ')[1].strip(), 'coupler.%s composes differently: %s' % (name, SB.diff(got, want)), f, f.node)
+        # the factory's own prologue: args / kwds default to () / {} when None and are otherwise used as given (a sequence of
+        # arguments stays a sequence of arguments); compared as a summary with the nested decorator blanked out
+        import copy as _copy
+        outer_f = ctx.func('mystic.coupler:%s' % name)
+        onode = _copy.deepcopy(outer_f.node)
+        for n_ in ast.walk(onode):
+            if isinstance(n_, ast.FunctionDef) and n_.name == 'dec' and n_ is not onode:
+                n_.body = [ast.Pass()]
+        ast.fix_missing_locations(onode)
+        first = outer_f.args()[0]
+        ref_outer = 'def %s(%s, args=None, kwds=None):\n    if args is None: args=()\n    if kwds is None: kwds={}\n    def dec(f):\n        pass\n    return dec\n' % (name, first)
+        go, wo = SB.agree(onode, ref_outer)
+        ctx.stats['terms_compared'] += len(go)
+        ctx.check(go == wo, 'coupler.%s#prologue' % name, 'args / kwds: None -> () / {}, otherwise as given',
+                  'coupler.%s prepares its extra arguments differently: %s' % (name, SB.diff(go, wo)), outer_f, outer_f.node)
         dec = ctx.func('mystic.coupler:%s.dec' % name)
         r = [s for s in dec.node.body if isinstance(s, ast.Return)]
         ctx.check(bool(r) and unparse(r[-1].value) == 'func', 'coupler.%s#dec' % name, 'dec returns func', 'coupler.%s.dec no longer returns the composed function' % name, dec, dec.node)
